@@ -150,7 +150,8 @@ package dns
 //@   assert at "wire := make([]byte, DefaultMsgSize)" keyvars: keywire.Flags == k.Flags && keywire.Protocol == k.Protocol && keywire.Algorithm == k.Algorithm && keywire.PublicKey == k.PublicKey
 // the owner is hashed in canonical wire form: the wire octets of the (fully qualified) name as given, with the
 // letters A-Z folded however they were written (as in HashName)
-//@   ghost pk at "owner = owner[:off]" owner
+//@   ghost pk at "for i, c := range owner {" owner
+//@   loop 1 invariant fold: 0-1 <= rangeindex && rangeindex < len(owner) && len(owner) == len(pk) && len(owner) == off && (forall j in 0..rangeindex+1 :: owner[j] == lower(pk[j])) && (forall j in rangeindex+1..len(owner) :: owner[j] == pk[j])
 //@   assert at "s := hash.New()" canon: callarg("PackDomainName", 0) == callres("Fqdn") && callarg("Fqdn", 0) == k.Hdr.Name && len(owner) == off && (forall j in 0..len(owner) :: owner[j] == lower(pk[j]))
 //@   callsite "PackDomainName" plain: arg2 == 0 && arg3 == nil && !arg4
 //@   callsite "Write" fed: same(arg0, owner) || same(arg0, wire)
